@@ -47,6 +47,10 @@ def check(run, P):
     run.rule("C08.mapper",
              "dependency mapper configuration descends into call arguments and "
              "subscripts; foreign None/str leaves give the empty set", minimum=6)
+    run.rule("C08.flow",
+             "every value collected in a get_read_variables()/get_written_variables() "
+             "chain reaches the return value; inside loops it is accumulated, "
+             "not overwritten", minimum=8)
     run.rule("C08.ident",
              "every field feeding the declared sets is either untouched by "
              "map_expressions or rebuilt from mapper(<same path>)", minimum=8)
@@ -91,6 +95,7 @@ def check(run, P):
                             f"({sorted(W)})"))
 
     _mapper_config(run, P)
+    _flow(run, P, classes)
     _ident(run, P, classes)
 
 
@@ -163,24 +168,226 @@ def _mapper_config(run, P):
            why="trusted base: without include_subscripts both aggregate and "
                "index are visited")
 
-    # (3) ExtendedDependencyMapper.map_foreign
+    # (3) ExtendedDependencyMapper.map_foreign: the empty set only for None / str
     ed = P.func("dagrt.expression.ExtendedDependencyMapper.map_foreign")
+    pname = ed.params[1] if len(ed.params) > 1 else "expr"
     ok = False
+    n_empty = 0
     for n in ast.walk(ed.node):
-        if isinstance(n, ast.If):
-            t = ast.unparse(n.test)
-            if "is None" in t and "str" in t:
-                rets = [s for s in n.body if isinstance(s, ast.Return)]
-                if rets and isinstance(rets[0].value, ast.Call) and \
-                        dotted(rets[0].value.func) in ("frozenset", "set") and \
-                        not rets[0].value.args:
-                    other = [s for s in n.orelse if isinstance(s, ast.Return)]
-                    if other and "super().map_foreign" in ast.unparse(other[0]):
-                        ok = True
-    run.ob("C08.mapper", ed, ed.node, ok,
-           construct="map_foreign: None/str -> frozenset(), else super()",
+        if isinstance(n, ast.Return) and _is_empty_set(n.value):
+            n_empty += 1
+    for n in ast.walk(ed.node):
+        if isinstance(n, ast.If) and _only_none_or_str(n.test, pname):
+            rets = [s_ for s_ in n.body if isinstance(s_, ast.Return)]
+            if rets and _is_empty_set(rets[0].value):
+                other = [s_ for s_ in n.orelse if isinstance(s_, ast.Return)]
+                if other and "super().map_foreign" in ast.unparse(other[0]):
+                    ok = True
+    run.ob("C08.mapper", ed, ed.node, ok and n_empty == 1,
+           construct="map_foreign: exactly None/str -> empty set, else super()",
            why="time/None leaves of YieldState and string constants must not "
-               "raise or contribute names")
+               "raise or contribute names; any other foreign object (tuple of "
+               "expressions, array) must still be descended into")
+
+    # (4) utils.get_variables: every path applies the mapper to its argument
+    from ..engine.cfg import CFG, walk_fragment
+    gv = P.func("dagrt.utils.get_variables")
+    cfg = CFG(gv.node)
+    arg0 = gv.params[0]
+    mapper_vars = set()
+    for n in ast.walk(gv.node):
+        if isinstance(n, ast.Assign) and isinstance(n.value, ast.Call):
+            tgt = P.resolve_expr(gv, n.value.func)
+            if tgt is not None and getattr(tgt, "name", "") in (
+                    "ExtendedDependencyMapper", "DependencyMapper"):
+                for t in n.targets:
+                    if isinstance(t, ast.Name):
+                        mapper_vars.add(t.id)
+
+    def applies(nd, frags):
+        for fr in frags:
+            for x in walk_fragment(fr):
+                if isinstance(x, ast.Call) and isinstance(x.func, ast.Name) \
+                        and x.func.id in mapper_vars and x.args \
+                        and isinstance(x.args[0], ast.Name) and x.args[0].id == arg0:
+                    return True
+        return False
+
+    app_nodes = cfg.find(applies)
+    if not app_nodes:
+        raise AnalysisError("utils.get_variables: mapper application on the argument not found")
+    bad = cfg.always_followed([cfg.entry], app_nodes)
+    # early exits are accepted only under the None/str idiom
+    ok = True
+    detail = ""
+    if bad:
+        ok = False
+        path = cfg.path(cfg.entry, cfg.exit, avoid=app_nodes, follow_exc=False)
+        if path:
+            tests = [nd for nd in path if nd.kind == "test"]
+            if tests and all(_only_none_or_str(t.ast, arg0) for t in tests):
+                ok = True
+            detail = " -> ".join(f"L{nd.lineno}" for nd in path if nd.ast is not None)
+    run.ob("C08.mapper", gv, gv.node, ok,
+           construct="get_variables: every return applies the dependency mapper to its argument",
+           why="an early return for 'literal' arguments silently drops the "
+               "variables of container-valued operands (tuples of expressions) "
+               "that the interpreter still evaluates", detail=detail)
+
+
+def _is_empty_set(v):
+    return isinstance(v, ast.Call) and dotted(v.func) in ("frozenset", "set") \
+        and not v.args and not v.keywords
+
+
+def _only_none_or_str(test, pname):
+    """test is a disjunction of `p is None` / isinstance(p, str)."""
+    parts = test.values if isinstance(test, ast.BoolOp) and isinstance(test.op, ast.Or) \
+        else [test]
+    for t in parts:
+        if isinstance(t, ast.Compare) and len(t.ops) == 1 and isinstance(t.ops[0], ast.Is) \
+                and isinstance(t.left, ast.Name) and t.left.id == pname \
+                and isinstance(t.comparators[0], ast.Constant) \
+                and t.comparators[0].value is None:
+            continue
+        if isinstance(t, ast.Call) and dotted(t.func) == "isinstance" and len(t.args) == 2 \
+                and isinstance(t.args[0], ast.Name) and t.args[0].id == pname:
+            c = t.args[1]
+            names = c.elts if isinstance(c, ast.Tuple) else [c]
+            if all(isinstance(x, ast.Name) and x.id in ("str", "bytes", "NoneType")
+                   for x in names):
+                continue
+        return False
+    return True
+
+
+def _flow(run, P, classes):
+    """Collected values reach the return value and are accumulated in loops."""
+    seen = set()
+    for K in classes:
+        for meth in ("get_read_variables", "get_written_variables"):
+            for f in sm._chain(P, K, meth):
+                if f in seen:
+                    continue
+                seen.add(f)
+                _flow_func(run, P, f, meth)
+
+
+def _flow_func(run, P, f, meth):
+    from ..engine.match import func_body_stmts
+    nested = set(f.nested)
+    mapper_names = set()
+    for n in ast.walk(f.node):
+        if isinstance(n, ast.Assign) and isinstance(n.value, ast.Call) \
+                and dotted(n.value.func) == "self.get_dependency_mapper":
+            for t in n.targets:
+                if isinstance(t, ast.Name):
+                    mapper_names.add(t.id)
+
+    def is_source(call):
+        if not isinstance(call, ast.Call):
+            return False
+        if isinstance(call.func, ast.Name):
+            if call.func.id in nested or call.func.id in mapper_names:
+                return True
+            tgt = P.resolve_name(f, call.func.id)
+            if isinstance(tgt, Func) and tgt.fq == "dagrt.utils.get_variables":
+                return True
+        if isinstance(call.func, ast.Attribute) and call.func.attr == meth \
+                and isinstance(call.func.value, ast.Call) \
+                and dotted(call.func.value.func) == "super":
+            return True
+        return False
+
+    stmts = func_body_stmts(f.node)      # not descending into nested defs
+    # name flow graph
+    flows = {}
+    returned = set()
+    for s in stmts:
+        if isinstance(s, ast.Return) and s.value is not None:
+            returned |= {x.id for x in ast.walk(s.value) if isinstance(x, ast.Name)}
+        elif isinstance(s, (ast.Assign, ast.AugAssign)):
+            tg = s.targets if isinstance(s, ast.Assign) else [s.target]
+            tnames = {x.id for t in tg for x in ast.walk(t) if isinstance(x, ast.Name)}
+            for x in ast.walk(s.value):
+                if isinstance(x, ast.Name):
+                    flows.setdefault(x.id, set()).update(tnames)
+
+    def reaches_return(name):
+        seen_, stack = set(), [name]
+        while stack:
+            n = stack.pop()
+            if n in returned:
+                return True
+            if n in seen_:
+                continue
+            seen_.add(n)
+            stack.extend(flows.get(n, ()))
+        return False
+
+    loops = [n for n in ast.walk(f.node) if isinstance(n, (ast.For, ast.While))]
+
+    def in_loop(stmt):
+        for l in loops:
+            for b in l.body:
+                if any(x is stmt for x in ast.walk(b)):
+                    return True
+        return False
+
+    for s in stmts:
+        if isinstance(s, (ast.FunctionDef, ast.ClassDef)):
+            continue
+        srcs = [x for x in _own_walk(s) if is_source(x)]
+        if not srcs:
+            continue
+        for c in srcs:
+            if isinstance(s, ast.Return):
+                ok, why = True, ""
+            elif isinstance(s, ast.AugAssign) and isinstance(s.target, ast.Name):
+                ok = reaches_return(s.target.id)
+                why = f"collected value is stored in '{s.target.id}', which never reaches the return value"
+            elif isinstance(s, ast.Assign) and len(s.targets) == 1 \
+                    and isinstance(s.targets[0], ast.Name):
+                t = s.targets[0].id
+                ok = reaches_return(t)
+                why = f"collected value is stored in '{t}', which never reaches the return value"
+                if ok and in_loop(s):
+                    self_ref = any(isinstance(x, ast.Name) and x.id == t
+                                   for x in ast.walk(s.value))
+                    if not self_ref:
+                        ok = False
+                        why = (f"'{t}' is overwritten in every loop iteration, so only "
+                               f"the names collected in the last iteration survive")
+            elif isinstance(s, ast.Expr) and isinstance(s.value, ast.Call) \
+                    and isinstance(s.value.func, ast.Attribute) \
+                    and s.value.func.attr in ("update", "add") \
+                    and isinstance(s.value.func.value, ast.Name):
+                ok = reaches_return(s.value.func.value.id)
+                why = "updated set never reaches the return value"
+            else:
+                ok, why = False, "collected value is discarded"
+            run.ob("C08.flow", f, s, ok,
+                   construct=f"{norm(c, 60)} in {norm(s, 90)}",
+                   why=why or "flows to the return value")
+
+
+def _own_walk(s):
+    """Walk a statement without descending into nested statement bodies."""
+    if isinstance(s, (ast.For, ast.AsyncFor)):
+        roots = [s.iter]
+    elif isinstance(s, (ast.While, ast.If)):
+        roots = [s.test]
+    elif isinstance(s, (ast.With, ast.AsyncWith)):
+        roots = [it.context_expr for it in s.items]
+    elif isinstance(s, ast.Try):
+        roots = []
+    else:
+        roots = [s]
+    for r in roots:
+        for x in ast.walk(r):
+            if isinstance(x, (ast.Lambda,)):
+                continue
+            yield x
 
 
 def _descends(node, fn):
